@@ -173,7 +173,8 @@ def run(ctx):
     k += 1
     if "_P" in c:       # vacuity guard of the priority dimension: the head must really have been passed over
       ks = set(s["args"].get("k", 0) for x in b for s in x if s["a"] == "Cycle")
-      if not {1, 2} <= ks:
+      need = {1} if "P2ai" in c else {1, 2}      # (with a single low-priority task there is never a second one to pass over)
+      if not need <= ks:
         raise core.Machinery("%s: no behaviour sends a low-priority task to the back (k = %s)" % (c, sorted(ks)))
     if first:
       first = False
